@@ -6,15 +6,44 @@ Definition case := (input * observation)%type.
 (* the model's outcome in the observation's vocabulary; the OS facts are taken from the
    implementation's observation (they are not modelled), and so is the presence of the probe
    metric where the model leaves it to prometheus ([o_metric_unknown]) *)
+(* the variables the scripted hook is asked about: the six contract variables and every variable
+   other variable of the operator's own environment *)
+Definition query_vars (i : input) : list N :=
+  [var_context; var_metrics; var_conversion; var_validating; var_admission; var_patch]
+  ++ filter (fun k => 6 <=? k) (map fst (i_env i)).
+
+Definition opt_eval_eqb (a b : option eval) : bool :=
+  match a, b with
+  | Some x, Some y => eval_eqb x y
+  | None, None => true
+  | _, _ => false
+  end.
+(* the observed view answers every queried variable as the model does (order-independent) *)
+Fixpoint find_var (e : list (N * option eval)) (k : N) : option (option eval) :=
+  match e with
+  | [] => None
+  | (k', v) :: r => if k' =? k then Some v else find_var r k
+  end.
+Definition view_agrees (m o : list (N * option eval)) : bool :=
+  forallb (fun kv => match find_var o (fst kv) with Some v => opt_eval_eqb v (snd kv) | None => false end) m.
+Fixpoint views_agree (ms os : list (list (N * option eval))) : bool :=
+  match ms, os with
+  | [], [] => true
+  | m :: mr, o :: or => view_agrees m o && views_agree mr or
+  | _, _ => false
+  end.
+
 Definition model_obs (c : case) : observation :=
   let (i, o) := c in
-  let m := run i in
+  let m := exec i in
   mkOb (o_started m) (ob_cwd_is_hook_dir o) (ob_env_ok o) (ob_context_matches o) (ob_files_empty o)
        (ob_paths_distinct o) (ob_tmp_during o)
        (if o_success m then 0 else 1)
        (o_remaining m)
        (if o_metric_unknown m then ob_metric_applied o else o_metric_applied m)
-       (o_patch_applied m) false.
+       (o_patch_applied m) false
+       (if o_started m then repeat (env_view i (query_vars i)) (if i_concurrent i then 2 else 1) else [])
+       (o_started m && foreign_written i).
 
 (* a not-started execution is retried without end in the harness (zero back-off); leaked
    files are compared as zero / non-zero only *)
@@ -28,6 +57,8 @@ Definition agrees (c : case) : bool :=
   && Bool.eqb (ob_metric_applied m) (ob_metric_applied o)
   && Bool.eqb (ob_patch_applied m) (ob_patch_applied o)
   && (if ob_started o then N.eqb (ob_tmp_during o) (if i_concurrent i then 10 else 5) else true)
+  && views_agree (ob_envs m) (ob_envs o)
+  && Bool.eqb (ob_foreign_touched m) (ob_foreign_touched o)
   && negb (ob_bad o).
 
 Definition mismatches (cs : list case) : list N := indices_where (fun c => negb (agrees c)) cs.
